@@ -621,6 +621,7 @@ def run(ctx):
     # O: overlapping operations last (the line-level scheduler slows everything that runs after it is installed)
     from pv.mon import sched
     ctx.stratum('O', exhaustive=False)
+    ctx.reserve(0.9)          # ... and the first-use schedules (fresh interpreters) the last tenth
     try:
         for i in range(OVERLAPS[ctx.tier]):
             if ctx.expired():
@@ -628,6 +629,7 @@ def run(ctx):
             check_overlap(ctx, real, gen_overlap(ctx, i))
     finally:
         sched.uninstall()
+    ctx.release()
     run_first_use(ctx)
     for k, v in contracts.EVALS.items():
         ctx.count('contract_evals.' + k, v)
